@@ -178,6 +178,12 @@ def test_simfs():
     got = fs.get(p)
     check(len(got) == 4096 and got[4:8] == np.int32(99).tobytes() and got[4000:4004] == b"wxyz" and b[0] == 99,
           "numpy.memmap / mmap.mmap / fromfile on simulated files")
+    # a directory descriptor (fsync of the directory after a rename, as careful atomic writers do)
+    fs.begin_call("s")
+    dfd = os.open("/simfs/d", os.O_RDONLY)
+    os.fsync(dfd)
+    os.close(dfd)
+    fs.end_call()
     # unlink while open: the handle keeps the bytes, the name is gone
     fs.begin_call("s")
     f = open(p, "rb")
